@@ -334,7 +334,11 @@ def gen_storage(rng, g, cfg, name, nodes, prices):
     if rng.random() < cfg.get('p_no_simult', 0.0):
         a['no_simult_in_out'] = True
     if rng.random() < cfg.get('p_max_store', 0.0):
-        a['max_store_duration'] = float(rng.randint(1, 3))
+        # a holding duration of one to three grid steps (in main time units); where the step length is not an exact float
+        # the duration is put between two step boundaries (a comparison exactly on a boundary could flip by rounding)
+        su = freq_td(g['freq']) / freq_td(g.get('unit', 'h'))
+        k = rng.randint(1, 3)
+        a['max_store_duration'] = float(k * su) if float(su).is_integer() or su in (0.5, 0.25) else float((k + 0.5) * su)
     if rng.random() < cfg.get('p_blocks', 0.0) and g['freq'] in ('h', '30min'):
         a['block_size'] = rng.choice(['2h', '3h', '4h'])
     common(rng, g, cfg, a)
@@ -448,7 +452,21 @@ def gen_structured(rng, g, cfg, name, nodes, prices):
     if rng.random() < 0.4:
         assets.append(gen_simple_contract(rng, g, sub, name + '_x', rng.choice(ext), prices))
     rng.shuffle(assets)
-    return {'kind': 'StructuredAsset', 'name': name, 'nodes': ext, 'assets': assets}
+    a = {'kind': 'StructuredAsset', 'name': name, 'nodes': ext, 'assets': assets}
+    if rng.random() < cfg.get('p_struct_window', 0.3):
+        # an own life time that covers the whole horizon (so it must not change anything)
+        pts = grid_points(g)
+        step = freq_td(g['freq'])
+        s0, e0 = pts[0] - rng.randint(0, 2) * step, pts[-1] + rng.randint(0, 3) * step
+        try:
+            check_safe(s0, g.get('tz')); check_safe(e0, g.get('tz'))
+            if rng.random() < 0.7:
+                a['end'] = fmt(e0)
+            if rng.random() < 0.5:
+                a['start'] = fmt(s0)
+        except Unsafe:
+            pass
+    return a
 
 
 def gen_plant(rng, g, cfg, name, power, heat, fuel, prices):
